@@ -96,13 +96,20 @@ class RegScenario:
         verb, pi = self.calls[i]
         try:
             if self.fe_name == 'v2':
-                if verb == 'register':
+                if verb.startswith('register'):
                     r = await self.app.register(PREFIXES[pi])
                 else:
                     r = await self.app.unregister(PREFIXES[pi])
             else:
                 if verb == 'register':
                     r = await self.app.register(PREFIXES[pi], None)
+                elif verb.startswith('register+'):
+                    # the route's own Interest validator has nothing to do with the forwarder's answer to the command
+                    verdict = verb.endswith('accept')
+
+                    async def route_validator(name, sig):
+                        return verdict
+                    r = await self.app.register(PREFIXES[pi], lambda *a, **k: None, route_validator)
                 else:
                     # legacy unregister deletes the route entry first: give it one
                     try:
@@ -194,6 +201,69 @@ class RegScenario:
         return obs
 
 
+NFD_DOMAINS = {('Route', 'flags'): range(4), 'flags': range(8), 'face_scope': range(2), 'face_persistency': range(3), 'link_type': range(3),
+               'face_event_kind': range(1, 5)}
+
+
+def typed_field_cases():
+    """every status-dataset / control-parameter field declared with an enumeration or flag type, with every value of its domain
+    (enumerations: every member; flag sets: every combination of the declared bits)"""
+    import enum
+    from ndn.encoding import tlv_model as tm
+    out = []
+    for cname in sorted(vars(nfd_mgmt)):
+        cls = getattr(nfd_mgmt, cname)
+        if not (isinstance(cls, type) and issubclass(cls, tm.TlvModel) and cls is not tm.TlvModel and cls.__module__ == nfd_mgmt.__name__):
+            continue
+        for f in cls._encoded_fields:
+            base = getattr(f, 'val_base_type', None)
+            if isinstance(f, tm.UintField) and isinstance(base, type) and issubclass(base, enum.Enum):
+                members = [m.value for m in base]
+                if issubclass(base, enum.Flag):
+                    bits = 0
+                    for m in members:
+                        bits |= m
+                    values = [v for v in range(bits + 1) if v & ~bits == 0]
+                else:
+                    values = members
+                # the NFD management protocol defines these domains whatever the declaration in the code says
+                spec = NFD_DOMAINS.get((cname, f.name)) or NFD_DOMAINS.get(f.name)
+                if spec is not None:
+                    values = sorted(set(values) | set(spec))
+                for v in values:
+                    out.append((cname, f.name, f.type_num, base, v))
+    return out
+
+
+def run_typed(cname, fname, tnum, base, v):
+    viol = []
+    cls = getattr(nfd_mgmt, cname)
+    wire = ts.tlv(tnum, ts.uint(v))
+    tag = f'C17|typed|{cname}.{fname}'
+    try:
+        m = cls.parse(wire)
+        got = getattr(m, fname)
+        if got is None or int(got.value if hasattr(got, 'value') else got) != v:
+            viol.append((f'{tag}|decoded-value', f'value {v} was encoded, {got!r} decoded'))
+        back = bytes(m.encode())
+        if back != wire:
+            viol.append((f'{tag}|re-encode', f'value {v}: decode then encode gives {back.hex()} instead of {wire.hex()}'))
+    except Exception as e:  # noqa
+        viol.append((f'{tag}|decode-raises:{type(e).__name__}', f'value {v} ({wire.hex()}): {e!r}'))
+        return viol
+    for label, val in (('typed', None), ('int', v)):
+        try:
+            val = getattr(nfd_mgmt, base.__name__)(v) if label == 'typed' else v
+            m2 = cls()
+            setattr(m2, fname, val)
+            w2 = bytes(m2.encode())
+            if w2 != wire:
+                viol.append((f'{tag}|encode-{label}', f'value {val!r} encodes to {w2.hex()} instead of {wire.hex()}'))
+        except Exception as e:  # noqa
+            viol.append((f'{tag}|encode-{label}-raises:{type(e).__name__}', f'value {v}: {e!r}'))
+    return viol
+
+
 def check_command(fe_name, wire, verb_prefix_pool, local=True):
     """returns (violations, (verb, prefix), timestamp)"""
     v = []
@@ -269,6 +339,7 @@ def judge(fe_name, calls, answers, run, local=True, drift=0):
         viol.extend(v)
         seen.append(vp)
         stamps.append(stamp)
+    calls = [(verb.split('+')[0], pi) for verb, pi in calls]      # 'register+reject': register with a route validator (legacy)
     want = sorted((verb, PREFIXES[pi]) for verb, pi in calls)
     if sorted(x for x in seen if x) != want and len(cmds) == len(calls):
         viol.append((f'C17|{fe_name}|command-target', f'commands {seen} for calls {want}'))
@@ -350,6 +421,11 @@ def extra_cases():
     for fe in ('v2', 'legacy'):
         for mix in ([('register', 0)], [('unregister', 0)], [('register', 0), ('unregister', 1)]):
             out.append((fe, mix, ['200'] * len(mix), False, 0))
+        if fe == 'legacy':
+            for ans in ('200', 'invalid', '403-nobody'):
+                for rv in ('register+reject', 'register+accept'):
+                    out.append((fe, [(rv, 0)], [ans], True, 0))
+                    out.append((fe, [(rv, 0), ('unregister', 1)], [ans, '200'], True, 0))
         for drift in (300, 500, 1000):
             for mix in ([('register', 0), ('register', 1)], [('register', 0), ('unregister', 1)], [('register', 0), ('register', 1), ('unregister', 0)]):
                 out.append((fe, mix, ['200'] * len(mix), True, drift))
@@ -480,6 +556,7 @@ def plan(tier, seed):
         units.append({'kind': 'sched', 'lo': k, 'hi': min(len(cases), k + 6), 'tier': tier, 'd': d})
     units.append({'kind': 'extra', 'd': d, 'tier': tier})
     units.append({'kind': 'phase'})
+    units.append({'kind': 'typed'})
     for fe in ('v2', 'legacy'):
         units.append({'kind': 'routes', 'fe': fe})
     for lo in range(0, 65536, 4096):
@@ -557,6 +634,20 @@ def unit(arg):
                             acc.violation(sig + '|drifting-clock', what + f' (clock drift {drift}us per reading, phase {phase}us)',
                                           {'kind': 'phase', 'fe': fe, 'calls': [list(c) for c in calls], 'drift': drift, 'phase': phase, 'auto': auto})
         acc.sample({'phase_sweep': {'drift_us_per_reading,answer_at_once': [list(g) for g in PHASE_GRID], 'phase_us': 'every 50 in 0..950'}})
+    elif arg['kind'] == 'typed':
+        acc.state_hashes = None
+        n_fields = 0
+        for cname, fname, tnum, base, v in typed_field_cases():
+            viol = run_typed(cname, fname, tnum, base, v)
+            acc.evaluations += 1
+            acc.state_count += 1
+            acc.transitions += 2
+            acc.nontrivial += 1
+            acc.outcome(f"typed|{cname}.{fname}|{'ok' if not viol else 'viol'}")
+            acc.observe([cname, fname, v, [x[0] for x in viol]])
+            for sig, what in viol:
+                acc.violation(sig, what, {'kind': 'typed', 'cls': cname, 'field': fname, 'value': v})
+        acc.sample({'typed_fields': sorted({f'{c}.{f}' for c, f, _, _, _ in typed_field_cases()})})
     elif arg['kind'] == 'routes':
         v, per = run_routes(arg['fe'])
         acc.evaluations += 1
@@ -586,6 +677,11 @@ def unit(arg):
 
 
 def replay(case):
+    if case['kind'] == 'typed':
+        for cname, fname, tnum, base, v in typed_field_cases():
+            if (cname, fname, v) == (case['cls'], case['field'], case['value']):
+                return [{'sig': s, 'what': w} for s, w in run_typed(cname, fname, tnum, base, v)]
+        return []
     if case['kind'] == 'phase':
         calls = [tuple(c) for c in case['calls']]
         answers = ['200'] * len(calls)
